@@ -54,10 +54,19 @@ func InitGenesis(ctx context.Context, k keeper.Keeper, genState types.GenesisSta
 	}
 
 	// Set all the bid
+	matchedBidsLen := map[uint64]int64{}
 	for _, elem := range genState.BidList {
-		_, err := k.Auction.Get(ctx, elem.AuctionId)
+		auction, err := k.Auction.Get(ctx, elem.AuctionId)
 		if errors.Is(err, collections.ErrNotFound) {
 			return fmt.Errorf("bid auction %d is not found", elem.AuctionId)
+		}
+		if err != nil {
+			return err
+		}
+
+		// The matched bids of a batch auction are the ones flagged at its last matching
+		if auction.GetType() == types.AuctionTypeBatch && elem.IsMatched {
+			matchedBidsLen[elem.AuctionId]++
 		}
 
 		bidID, err := k.GetNextBidIdWithUpdate(ctx, elem.AuctionId)
@@ -67,6 +76,20 @@ func InitGenesis(ctx context.Context, k keeper.Keeper, genState types.GenesisSta
 		elem.Id = bidID
 		if err := k.Bid.Set(ctx, collections.Join(elem.AuctionId, elem.Id), elem); err != nil {
 			return err
+		}
+	}
+
+	// Restore the last matched bids length of the batch auctions, which is not part of the genesis state
+	// but decides whether an auction in the middle of extended rounds is extended again or closed
+	for _, elem := range genState.AuctionList {
+		auction, err := types.UnpackAuction(elem)
+		if err != nil {
+			return err
+		}
+		if n, ok := matchedBidsLen[auction.GetId()]; ok {
+			if err := k.SetMatchedBidsLen(ctx, auction.GetId(), n); err != nil {
+				return err
+			}
 		}
 	}
 
